@@ -32,7 +32,7 @@ MS = 4                 # max shrink factor
 def spec_grid(name):
     g = CATALOGUE[name]
     return dict(ul=g['ul'], bbox=list(g['bbox']), tw=g['tw'], th=g['th'], res=list(g['res']), sn=SN, sd=SD, ms=MS,
-                thr=list(g.get('thr', ())))
+                thr=list(g.get('thr', ())), sf=False, so=False)
 
 
 class Regime(object):
@@ -126,7 +126,7 @@ class LatticeApp(object):
     """MapProxyApp on one lattice grid: layer `lay` <- cache `c` (file) <- WMS source `up` (faked)"""
 
     def __init__(self, g, srs='EPSG:3857', meta_size=(2, 2), meta_buffer=0, source_coverage=None, services=None,
-                 extra_conf=None, scale=1, featureinfo=False, wms_srs=None):
+                 extra_conf=None, scale=1, featureinfo=False, wms_srs=None, grid_conf=None):
         from mapproxy.config.loader import ProxyConfiguration
         from mapproxy.wsgiapp import MapProxyApp
         import mapproxy.client.http as http
@@ -157,6 +157,8 @@ class LatticeApp(object):
                         'cache': {'base_dir': os.path.join(self.dir, 'cache_data'), 'lock_dir': os.path.join(self.dir, 'locks'),
                                   'tile_lock_dir': os.path.join(self.dir, 'tile_locks')}},
         }
+        if grid_conf:
+            conf['grids']['g'] = grid_conf
         if extra_conf:
             for k, v in extra_conf.items():
                 if isinstance(v, dict) and isinstance(conf.get(k), dict):
